@@ -103,6 +103,15 @@ Definition contact_obs_eqb (a b : contact) : bool :=
   && raw_fields_sub (c_fields a) (c_fields b) && raw_fields_sub (c_fields b) (c_fields a)
   && oticket_eqb (c_ticket a) (c_ticket b).
 
+(* ... and the channel pointers: the observed contact carries the pointers of the real contact in memory *)
+Fixpoint chans_eqb (a b : list curn) : bool :=
+  match a, b with
+  | [], [] => true
+  | x :: a', y :: b' => optN_eqb (cu_chan x) (cu_chan y) && chans_eqb a' b'
+  | _, _ => false
+  end.
+Definition contact_obs_ptr_eqb (a b : contact) : bool := contact_obs_eqb a b && chans_eqb (c_urns a) (c_urns b).
+
 Definition event_eqb (a b : event) : bool :=
   match a, b with
   | ENameChanged x, ENameChanged y => text_eqb x y
@@ -140,8 +149,9 @@ Definition check_m (k : mcase) : bool :=
   let E := mk_env (k_tables k) in
   let '(c1, evs1, m1) := apply E (k_fresh k) (k_mod k) (k_contact k) in
   let '(c2, evs2, m2) := apply E (k_fresh k + 1) (k_mod k) c1 in
-  contact_obs_eqb c1 (k_o_contact k) && events_eqb evs1 (k_o_events k) && Bool.eqb m1 (k_o_modified k)
-  && contact_obs_eqb c2 (k_o_contact2 k) && events_eqb evs2 (k_o_events2 k) && Bool.eqb m2 (k_o_modified2 k)
+  contact_obs_ptr_eqb c1 (k_o_contact k) && events_eqb evs1 (k_o_events k) && Bool.eqb m1 (k_o_modified k)
+  && contact_obs_ptr_eqb c2 (k_o_contact2 k) && events_eqb evs2 (k_o_events2 k) && Bool.eqb m2 (k_o_modified2 k)
+  && wf_contact_b E (k_contact k) && mod_wf_b E (k_mod k)
   && mod_env_ok E (k_mod k) (k_contact k) && tables_in_fragment (k_tables k)
   && chan_ok_b E (k_contact k) && chan_env_ok E (k_mod k) (k_contact k) && chan_ok_b E c1 && chan_ok_b E c2.
 
@@ -154,7 +164,10 @@ Record scase := {
 Definition check_s (k : scase) : bool :=
   let E := mk_env (s_tables k) in
   let '(c1, evs1) := run_sprint E (s_kind k) (s_acts k) (s_contact k) in
-  contact_obs_eqb c1 (s_o_contact k) && events_eqb evs1 (s_o_events k) && tables_in_fragment (s_tables k).
+  contact_obs_ptr_eqb c1 (s_o_contact k) && events_eqb evs1 (s_o_events k) && tables_in_fragment (s_tables k)
+  && wf_contact_b E (s_contact k) && forallb (fun fm => mod_wf_b E (snd fm)) (s_acts k)
+  && match s_kind k with KResume (Some c') _ => wf_contact_b E c' && chan_ok_b E c' | _ => true end
+  && chan_ok_b E (s_contact k).
 
 Fixpoint mismatches_from {A : Type} (chk : A -> bool) (i : N) (ks : list A) : list N :=
   match ks with
